@@ -216,7 +216,10 @@ static KSI_AsyncClient *tc; static int owned[MAXH]; /* held[i] is owned by the c
 static void reset_net(void) { int k; interactive = 0; for (k = 0; k < NEP; k++) { free(eps[k].s2c); memset(&eps[k], 0, sizeof(Ep)); } cur_ep = pending_ep = 0; vclock = 1600000000; }
 static KSI_Signature *slots[32];
 static void bs_free_all(void);
-static void free_all(void) { int i; bs_free_all(); for (i = 0; i < 32; i++) { KSI_Signature_free(slots[i]); slots[i] = NULL; } nsvc = 0; memset(svc, 0, sizeof(svc)); for (i = 0; i < MAXH; i++) { if (owned[i]) KSI_AsyncHandle_free(held[i]); held[i] = NULL; owned[i] = 0; } KSI_AsyncService_free(as); as = NULL; KSI_AsyncClient_free(tc); tc = NULL; KSI_CTX_free(ctx); ctx = NULL; }
+/* ADDXS: the handle borrows the source signature and the publication record, so they live here until the handle has been returned */
+static KSI_Signature *xs_sig[MAXH]; static KSI_PublicationRecord *xs_pub[MAXH]; static unsigned char *xs_ser[MAXH]; static size_t xs_len[MAXH];
+static void xs_free(long t) { if (t < 0 || t >= MAXH) return; KSI_Signature_free(xs_sig[t]); xs_sig[t] = NULL; KSI_PublicationRecord_free(xs_pub[t]); xs_pub[t] = NULL; KSI_free(xs_ser[t]); xs_ser[t] = NULL; }
+static void free_all(void) { int i; bs_free_all(); for (i = 0; i < 32; i++) { KSI_Signature_free(slots[i]); slots[i] = NULL; } nsvc = 0; memset(svc, 0, sizeof(svc)); for (i = 0; i < MAXH; i++) { if (owned[i]) KSI_AsyncHandle_free(held[i]); held[i] = NULL; owned[i] = 0; } KSI_AsyncService_free(as); as = NULL; KSI_AsyncClient_free(tc); tc = NULL; for (i = 0; i < MAXH; i++) xs_free(i); KSI_CTX_free(ctx); ctx = NULL; }
 
 /* sub-service calls made by the HA service (net_ha.o -> net_async.o) are interposed too: they are the linearization points of C15 */
 static int svc_index(KSI_AsyncService *s) { int i; if (s == as) return -1; for (i = 0; i < nsvc; i++) if (svc[i] == s) return i; if (nsvc < 8) { svc[nsvc] = s; return nsvc++; } return 99; }
@@ -265,7 +268,14 @@ static void print_handle(KSI_AsyncHandle *h) {
 	if (st == KSI_ASYNC_STATE_PUSH_CONFIG_RECEIVED && nsvc > 0) tag = NULL;
 	KSI_AsyncHandle_getParentId(h, &parent); (void)parent;
 	printf(" h=%ld state=%d err=0x%x ext=%ld id=%llu", (long)(size_t)tag - 1, st, err, ext, (unsigned long long)id);
-	if (st == KSI_ASYNC_STATE_RESPONSE_RECEIVED && extending) {
+	if (st == KSI_ASYNC_STATE_RESPONSE_RECEIVED && extending && tag != NULL && (size_t)tag - 1 < MAXH && xs_sig[(size_t)tag - 1] != NULL) {
+		/* signature-extending request: xsig=<rc of KSI_AsyncHandle_getSignature> src=<source serialization same|diff> ext=<result> */
+		long t = (long)(size_t)tag - 1; KSI_Signature *ext = NULL; unsigned char *after = NULL, *ser = NULL; size_t al = 0, el = 0; int rc = KSI_AsyncHandle_getSignature(h, &ext);
+		KSI_Signature_serialize(xs_sig[t], &after, &al);
+		printf(" xsig=0x%x src=%s", rc, (after == NULL || xs_ser[t] == NULL) ? "err" : (al == xs_len[t] && memcmp(after, xs_ser[t], al) == 0) ? "same" : "diff");
+		if (rc == KSI_OK && ext != NULL && KSI_Signature_serialize(ext, &ser, &el) == KSI_OK) { printf(" ext="); hx_print(ser, el); }
+		KSI_free(ser); KSI_free(after); KSI_Signature_free(ext);
+	} else if (st == KSI_ASYNC_STATE_RESPONSE_RECEIVED && extending) {
 		/* for the extending service the 'signature' of the trace is the calendar chain: sig=<rc of getting it>, sighash=<its input hash> */
 		KSI_ExtendResp *er = NULL; KSI_CalendarHashChain *cc = NULL; KSI_DataHash *in = NULL; int rc = KSI_AsyncHandle_getExtendResp(h, &er);
 		if (rc == KSI_OK) rc = KSI_ExtendResp_getCalendarHashChain(er, &cc);
@@ -497,6 +507,24 @@ int main(void) {
 			  if (KSI_AsyncService_getOption(as, KSI_ASYNC_OPT_HA_SUBSERVICE_LIST, (void *)&subs) == KSI_OK && subs != NULL)
 				for (j = 0; j < KSI_AsyncServiceList_length(subs); j++) { KSI_AsyncService *x = NULL; KSI_AsyncServiceList_elementAt(subs, j, &x); svc_index(x); } }
 			printf("R hanew rc=%d subs=%d\n", rc, nsvc);
+		} else if (!strcmp(tok[0], "ADDXS")) {
+			/* ADDXS <tag> <sigHex> <-|pub:<time>:<imprintHex>> : KSI_AsyncExtendingHandle_new(signature, publication record) on the extending async service */
+			long tag = atol(tok[1]); size_t sl; unsigned char *sb = hx_dec(tok[2], &sl); KSI_AsyncHandle *h = NULL; int rc; KSI_uint64_t id = 0;
+			xs_free(tag);
+			rc = KSI_Signature_parseWithPolicy(ctx, sb, sl, KSI_VERIFICATION_POLICY_EMPTY, NULL, &xs_sig[tag]); free(sb);
+			if (rc != KSI_OK) { printf("R add tag=%ld parse=0x%x\n", tag, rc); fflush(stdout); continue; }
+			KSI_Signature_serialize(xs_sig[tag], &xs_ser[tag], &xs_len[tag]);
+			if (!strncmp(tok[3], "pub:", 4)) {
+				KSI_PublicationData *pd = NULL; KSI_Integer *t = NULL; KSI_DataHash *hh = NULL; size_t il; unsigned char *ib;
+				char *c2 = strchr(tok[3] + 4, ':'); *c2++ = 0; ib = hx_dec(c2, &il);
+				KSI_PublicationRecord_new(ctx, &xs_pub[tag]); KSI_PublicationData_new(ctx, &pd); KSI_Integer_new(ctx, strtoull(tok[3] + 4, NULL, 10), &t);
+				rc = KSI_DataHash_fromImprint(ctx, ib, il, &hh); free(ib);
+				KSI_PublicationData_setTime(pd, t); KSI_PublicationData_setImprint(pd, hh); KSI_PublicationRecord_setPublishedData(xs_pub[tag], pd);
+			}
+			if (rc == KSI_OK) rc = KSI_AsyncExtendingHandle_new(ctx, xs_sig[tag], xs_pub[tag], &h);
+			if (rc == KSI_OK) { KSI_AsyncHandle_setRequestCtx(h, (void *)(size_t)(tag + 1), NULL); rc = KSI_AsyncService_addRequest(as, h); }
+			if (rc == KSI_OK) { held[tag] = h; KSI_AsyncHandle_getRequestId(h, &id); } else { KSI_AsyncHandle_free(h); xs_free(tag); }
+			printf("R add tag=%ld rc=0x%x id=%llu\n", tag, rc, (unsigned long long)id);
 		} else if (!strcmp(tok[0], "ADDX")) {
 			/* ADDX <tag> <aggregationTime> <publicationTime|-> : extension request on the extending async service */
 			long tag = atol(tok[1]); KSI_ExtendReq *rq = NULL; KSI_Integer *a = NULL, *pt = NULL; KSI_AsyncHandle *h = NULL; int rc; KSI_uint64_t id = 0;
@@ -523,7 +551,7 @@ int main(void) {
 			KSI_AsyncService_getPendingCount(as, &pending); KSI_AsyncService_getReceivedCount(as, &received);
 			printf("R run rc=0x%x waiting=%zu pending=%zu received=%zu", rc, waiting, pending, received);
 			if (h != NULL) { const void *tag = NULL; int st = -1; print_handle(h); KSI_AsyncHandle_getState(h, &st); KSI_AsyncHandle_getRequestCtx(h, &tag);
-				if (st != KSI_ASYNC_STATE_ERROR_NOTICE && st != KSI_ASYNC_STATE_PUSH_CONFIG_RECEIVED && tag && (size_t)tag - 1 < MAXH && held[(size_t)tag - 1] == h) held[(size_t)tag - 1] = NULL;
+				if (st != KSI_ASYNC_STATE_ERROR_NOTICE && st != KSI_ASYNC_STATE_PUSH_CONFIG_RECEIVED && tag && (size_t)tag - 1 < MAXH && held[(size_t)tag - 1] == h) { held[(size_t)tag - 1] = NULL; KSI_AsyncHandle_free(h); xs_free((long)(size_t)tag - 1); h = NULL; }
 				KSI_AsyncHandle_free(h); }
 			else printf(" h=-");
 			printf("\n");
